@@ -53,8 +53,14 @@ mod tree;
 use common::Sink;
 
 fn main() {
+    // panics are expected (the calls under test are wrapped in catch_unwind); remember the last
+    // message so that a panic of the HARNESS itself can be reported with the partial transcript
     if std::env::var("XOTHARNESS_SHOW_PANICS").is_err() {
-        std::panic::set_hook(Box::new(|_| {}));
+        std::panic::set_hook(Box::new(|info| {
+            let loc = info.location().map(|l| format!("{}:{}", l.file(), l.line())).unwrap_or_default();
+            let msg = info.payload().downcast_ref::<&str>().map(|s| s.to_string()).or_else(|| info.payload().downcast_ref::<String>().cloned()).unwrap_or_default();
+            LAST_PANIC.with(|p| *p.borrow_mut() = format!("{} {}", loc, msg));
+        }));
     }
     let args: Vec<String> = std::env::args().collect();
     if args.len() < 5 {
@@ -66,7 +72,7 @@ fn main() {
     let count: usize = args[3].parse().expect("count");
     let tier = args[4].as_str();
     let mut sink = Sink::new();
-    match suite {
+    let run = std::panic::catch_unwind(std::panic::AssertUnwindSafe(|| match suite {
         "entity" => suite_entity::run(seed, count, tier, &mut sink),
         "tree" => suite_tree::run(seed, count, tier, &mut sink),
         "cmp" => suite_cmp::run(seed, count, tier, &mut sink),
@@ -94,6 +100,17 @@ fn main() {
             eprintln!("unknown suite {}", suite);
             std::process::exit(2);
         }
-    }
+    }));
+    // what was observed up to a panic of the harness itself is still printed (requests, responses,
+    // oracle failures): the implementation did something the suite was not prepared for
     sink.print();
+    if run.is_err() {
+        let msg = LAST_PANIC.with(|p| p.borrow().clone());
+        println!("X\tharness-panic\t{}", msg.replace('\t', " ").replace('\n', " "));
+        std::process::exit(3);
+    }
+}
+
+thread_local! {
+    static LAST_PANIC: std::cell::RefCell<String> = std::cell::RefCell::new(String::new());
 }
